@@ -6,7 +6,7 @@
 #   ./selftest.sh clean                      remove the scratch area
 # The scratch area lives in /root/scratch/selftest (outside /repo and /verif); /repo itself is never touched.
 set -u
-S=/root/scratch/selftest
+S=${SELFTEST_DIR:-/root/scratch/selftest}
 export CARGO_NET_OFFLINE=true CARGO_TERM_COLOR=never
 prep() {
   mkdir -p $S/repo $S/harness $S/out/evidence $S/out/replays
